@@ -539,6 +539,51 @@ theorem maxprinciple_solid_partial (Nz Nr : Nat) (dt rho dz dr lo hi : ℝ) (r :
   exact convex5 _ _ _ _ _ _ _ _ _ _ lo hi (by linarith) (mul_nonneg hθ0 h1) (mul_nonneg hθ0 h2)
     (mul_nonneg hθ0 h3) (mul_nonneg hθ0 h4) (by ring) hc ho hn hu hl
 
+/-- **the sign hypotheses of `maxprinciple_solid_partial`, discharged where possible**: if all
+conductivities involved lie in `[λ_w, λ_i]` (true for `k_eff = λ_i w + λ_w (1−w)`, `0 ≤ w ≤ 1`) then
+* the two AXIAL weights are non-negative as soon as `λ_i ≤ 5 λ_w` (default: 2.25 ≤ 2.99),
+* the two RADIAL weights are non-negative at nodes with `r_j ≥ 2 dr` (all `j ≥ 2` on the code's grid)
+  as soon as `λ_i ≤ 4 λ_w` (default: 2.25 ≤ 2.39).
+At `j = 1` (`r_1 ≈ 1.07 dr`) the inner radial weight needs `λ_i ≤ 3.1 λ_w`, which the default
+water/ice pair (ratio 3.76) does NOT satisfy: there the hypothesis stays a hypothesis. -/
+theorem solid_weights_nonneg (lw li kc kU kL kO kI dz dr rj : ℝ) (hlw : 0 < lw)
+    (hc : lw ≤ kc ∧ kc ≤ li) (hU : lw ≤ kU ∧ kU ≤ li) (hL : lw ≤ kL ∧ kL ≤ li)
+    (hO : lw ≤ kO ∧ kO ≤ li) (hI : lw ≤ kI ∧ kI ≤ li) (hdz : 0 < dz) (hdr : 0 < dr) :
+    (li ≤ 5 * lw → 0 ≤ (kU - kL) / (4 * (dz * dz)) + kc / (dz * dz)
+        ∧ 0 ≤ -((kU - kL) / (4 * (dz * dz))) + kc / (dz * dz)) ∧
+    (li ≤ 4 * lw → 2 * dr ≤ rj →
+      0 ≤ kc / rj / (2 * dr) + (kO - kI) / (4 * (dr * dr)) + kc / (dr * dr)
+        ∧ 0 ≤ -(kc / rj / (2 * dr)) - (kO - kI) / (4 * (dr * dr)) + kc / (dr * dr)) := by
+  constructor
+  · intro h5
+    have e1 : (kU - kL) / (4 * (dz * dz)) + kc / (dz * dz) = (4 * kc + (kU - kL)) / (4 * (dz * dz)) := by
+      field_simp; ring
+    have e2 : -((kU - kL) / (4 * (dz * dz))) + kc / (dz * dz) = (4 * kc - (kU - kL)) / (4 * (dz * dz)) := by
+      field_simp; ring
+    rw [e1, e2]
+    constructor <;> apply div_nonneg <;> first | positivity | linarith [hc.1, hc.2, hU.1, hU.2, hL.1, hL.2]
+  · intro h4 hr
+    have hrpos : 0 < rj := by linarith
+    have hkc : 0 < kc := by linarith [hc.1]
+    -- kc/(2 rj dr) ≤ kc/(4 dr²)
+    have hg : kc / rj / (2 * dr) ≤ kc / (4 * (dr * dr)) := by
+      rw [div_div]
+      apply div_le_div_of_nonneg_left (le_of_lt hkc) (by positivity)
+      nlinarith
+    have hg0 : 0 ≤ kc / rj / (2 * dr) := by positivity
+    have e3 : (kO - kI) / (4 * (dr * dr)) + kc / (dr * dr) = (4 * kc + (kO - kI)) / (4 * (dr * dr)) := by
+      field_simp; ring
+    have e4 : kc / (dr * dr) - kc / (4 * (dr * dr)) - (kO - kI) / (4 * (dr * dr))
+        = (3 * kc - (kO - kI)) / (4 * (dr * dr)) := by
+      field_simp; ring
+    constructor
+    · have : 0 ≤ (4 * kc + (kO - kI)) / (4 * (dr * dr)) := by
+        apply div_nonneg _ (by positivity); linarith [hc.1, hO.1, hI.2]
+      linarith [e3]
+    · have : 0 ≤ (3 * kc - (kO - kI)) / (4 * (dr * dr)) := by
+        apply div_nonneg _ (by positivity); linarith [hc.1, hO.2, hI.1]
+      linarith [e4]
+
 /-! ### the code's radial grid satisfies `r_j ≥ dr/2` -/
 
 /-- `r = np.linspace(0, R, Nr)` and `dr = R/Nr`: for `j ≥ 1`, `r_j ≥ dr/2` (indeed `r_j ≥ dr`) -/
